@@ -127,6 +127,46 @@ def check_dlpoly(ctx, n):
   return True
 
 
+def check_dlpoly_many(ctx, n, npots):
+  """A DL_POLY TABLE of MANY long blocks (tens of megabytes in all): every block complete, in place and with its own values -
+  whatever the writer does with the finished blocks while it works on the next (seeded change C02r10 handed them on past
+  16 Mi characters and left padding between the blocks that followed).  n must be a multiple of 4."""
+  from atsim.potentials import Potential
+  from atsim.potentials.pair_tabulation import DLPoly_PairTabulation
+  delpot = 0.25
+  cutoff = (n - 4) * delpot
+  pots = []
+  for k in range(npots):
+    f = (lambda r, k=k: (k + 1.0) * r)
+    pots.append(Potential("A%d" % k, "B", f))
+  out = io.StringIO()
+  DLPoly_PairTabulation(pots, cutoff, n).write(out)
+  text = out.getvalue()
+  ctx.count("many_long_blocks_chars", len(text))
+  if "\x00" in text:
+    ctx.violation("size_format", "DL_POLY %d blocks of %d rows: %d NUL characters in the table" % (npots, n, text.count("\x00")), what="size_format")
+    return False
+  try:
+    p = readers.read_dlpoly_table(text)
+  except readers.FormatError as e:
+    ctx.violation("size_format", "DL_POLY %d blocks of %d rows: %s" % (npots, n, e), what="size_format")
+    return False
+  if p["ngrid"] != n or len(p["blocks"]) != npots:
+    ctx.violation("size_count", "DL_POLY %d blocks of %d rows: ngrid=%s blocks=%d" % (npots, n, p["ngrid"], len(p["blocks"])), what="size_count")
+    return False
+  for k, b in enumerate(p["blocks"]):
+    if len(b["energies"]) != n or len(b["forces"]) != n:
+      ctx.violation("size_count", "DL_POLY %d blocks of %d rows: block %d has %d energies, %d forces" % (npots, n, k, len(b["energies"]), len(b["forces"])), what="size_count")
+      return False
+    for i in sorted(set([0, 1, n // 2, n - 2, n - 1])):
+      r = (i + 1) * delpot
+      if not (abs(float(b["energies"][i]) - (k + 1) * r) <= 2e-7 * r and abs(float(b["forces"][i]) + (k + 1) * r) <= 1e-4 * r):
+        ctx.violation("size_value", "DL_POLY %d blocks of %d rows, block %d point %d: E=%s F=%s expected %s %s" % (npots, n, k, i + 1, b["energies"][i], b["forces"][i], (k + 1) * r, -(k + 1) * r), what="size_value")
+        return False
+  ctx.count("sizes_checked")
+  return True
+
+
 def check_setfl(ctx, n, fs=False):
   import atsim.potentials as ap
   from atsim.potentials import Potential, EAMPotential
